@@ -41,6 +41,9 @@ CLAUSES = {
     "pure": "for any sequence of operations (set / ... / group lookups / query / equality / pickle round trip) the "
             "container behaves like the reference map: lookups, comparisons and pickling do not change what later "
             "operations and observations yield",
+    "ownership": "a message container behaves like an insertion-ordered map from integer tags to strings or lists of "
+                 "nested containers: it owns its lists - its content changes only through its own operations, not "
+                 "through another tag, another container or the list object the caller passed to set_group",
     "pickle": "pickle round trip preserves the container (quantifier: pickle round trip compared with the model)",
 }
 
@@ -905,7 +908,7 @@ def eq_fail(r, expected, groupish=False):
     return "returned_" + type(r[1]).__name__
 
 
-def observe_whole(M, cls, path, c, st, o, full=True):
+def observe_whole(M, cls, path, c, st, o, full=True, fresh=True):
     # ---- items(): insertion order + string values ---------------------------
     r = call(snapshot, c)
     o.n += 1
@@ -989,6 +992,57 @@ def observe_whole(M, cls, path, c, st, o, full=True):
             f = eq_fail(e, exp, groupish=g or has_list(d))
             if f:
                 o.add("eq_dict", "eq", name, "int", None, f, repr(exp), f"{src}  with d = {d!r}")
+    # ---- the container owns its group lists (set_group from ONE caller list of FIXContainer items) ------
+    if full and fresh:
+        absent = [cn for cn in M.CANON if cn not in {k for k, _v in st}]
+        if absent:
+            t1 = int(absent[0])
+            t2 = int(absent[1]) if len(absent) > 1 else None
+            items = (M.ITEMS[0].model, M.ITEMS[1].model)
+            lst = [FIXContainer(dict(M.ITEMS[0].pairs)), FIXContainer(dict(M.ITEMS[1].pairs))]
+            p, q = rebuild(M, cls, path), rebuild(M, "FIXContainer" if cls == "FIXMessage" else "FIXMessage", path)
+            ok = call(p.set_group, t1, lst)[0] and call(q.set_group, t1, lst)[0]
+            if ok and t2 is not None:
+                ok = call(p.set_group, t2, lst)[0]
+            o.n += 3
+            if ok:
+                src = (f"L = [FIXContainer({dict(M.ITEMS[0].pairs)!r}), FIXContainer(...)]; p.set_group({t1}, L); "
+                       f"q.set_group({t1}, L)" + (f"; p.set_group({t2}, L)" if t2 is not None else ""))
+                tail = ((str(t2), items),) if t2 is not None else ()
+                exp_q = st + ((str(t1), items),)
+                # (a) a change through one tag of one container
+                call(p.add_group, t1, {1: M.A})
+                exp_p = st + ((str(t1), items + (M.ITEMS[0].model,)),) + tail
+                o.n += 3
+                gp, gq = snapshot(p), snapshot(q)
+                if gp != exp_p or gq != exp_q:
+                    what = "other_container_changed" if gq != exp_q else "other_tag_changed"
+                    o.add("ownership", "set_group_shared_list", "add_group_on_one_of_them", "int", None,
+                          what, repr((exp_p, exp_q)), src + f"; p.add_group({t1}, {{1: {M.A!r}}})  ->  p={gp!r} q={gq!r}")
+                else:
+                    # (b) the caller keeps using its list
+                    for step, fn in (("append", lambda: lst.append(FIXContainer({55: M.A}))),
+                                     ("replace_item", lambda: lst.__setitem__(0, FIXContainer({55: M.B}))),
+                                     ("clear", lst.clear)):
+                        fn()
+                        o.n += 2
+                        gp, gq = snapshot(p), snapshot(q)
+                        if gp != exp_p or gq != exp_q:
+                            o.add("ownership", "set_group_shared_list", "caller_list_mutated_afterwards", "int", None,
+                                  "container_changed_by_list_" + step, repr((exp_p, exp_q)),
+                                  src + f"; p.add_group({t1}, {{1: {M.A!r}}}); L.{step}(...)  ->  p={gp!r} q={gq!r}")
+                            break
+            # empty caller list, appended to afterwards
+            r0 = rebuild(M, cls, path)
+            l0 = []
+            if call(r0.set_group, t1, l0)[0]:
+                l0.append(FIXContainer({1: M.A}))
+                o.n += 2
+                g0 = snapshot(r0)
+                if g0 != st + ((str(t1), ()),):
+                    o.add("ownership", "set_group_shared_list", "caller_list_mutated_afterwards", "int", None,
+                          "container_changed_by_list_append_to_empty", repr(st + ((str(t1), ()),)),
+                          f"L = []; r.set_group({t1}, L); L.append(FIXContainer(...))  ->  r={g0!r}")
     # ---- get_group_by_tag when an EARLIER item holds the inner tag as a nested group -------------
     if full:
         for k, v in st:
@@ -1060,7 +1114,7 @@ def observe(M, cls, path, st, acc, full=True, obj=None, check="observe"):
     c = rebuild(M, cls, path) if obj is None else obj
     o = Obs()
     observe_tags(M, c, st, o, full)
-    observe_whole(M, cls, path, c, st, o, full)
+    observe_whole(M, cls, path, c, st, o, full, obj is None)
     if o.fails:
         failed_int = {(f[1], f[2], f[4]) for f in o.fails if f[3] == "int"}
         for clause, observer, target, sk, canon, failure, detail in o.fails:
